@@ -32,6 +32,8 @@ def deco_new(n):
     def w(c):
         return type(c.__name__, (c,), {'decorated_new': n})
     return w
+encl = 'enclM'
+encl2 = 'encl2M'
 def hookd(f):
     def w(cls, *a, **kw):
         cls.hooked = getattr(cls, 'hooked', 0) + 1
@@ -65,6 +67,9 @@ MEMBERS = {
     "self-ref": ["def me(self):", "    return (K.__name__, getattr(K, 'decorated_new', None), getattr(K, 'decorated', None))"],
     "lambda-default-same-name": ["sep = '-'", "width = 3", "lam2 = lambda self, sep=sep, *, width=width + 1: (sep, width)"],
     "comprehension-member": ["sq = [n * n for n in range(3)]"],
+    # the implicit __class__ cell together with a name of the enclosing scope (a function local in the function placements)
+    "super0-enclosing": ["def who(self):", "    return 'K>' + super().who() + encl"],
+    "dunder-class-enclosing": ["def dc(self):", "    return (__class__.__name__, encl, encl2)"],
 }
 
 
@@ -114,7 +119,7 @@ def probe(c):
         o = c()
     except Exception as e:
         out.append(('construct', type(e).__name__)); return out
-    for call in ('o.m(1)', 'o.m(1, b=5)', 'c.s(4)', 'o.s(4)', 'c.c(3)', 'o.c(3)', 'o.p', 'o.who()', 'o.v', 'o(1)', 'repr(o)', 'o.md()', 'o.lam()', 'o.lam2()', 'o.me()', 'c.Inner().im()', 'c.Inner.z', 'c[int].__class__.__name__', "c['k']", 'o.made'):
+    for call in ('o.m(1)', 'o.m(1, b=5)', 'c.s(4)', 'o.s(4)', 'c.c(3)', 'o.c(3)', 'o.p', 'o.who()', 'o.v', 'o(1)', 'repr(o)', 'o.md()', 'o.lam()', 'o.lam2()', 'o.me()', 'o.dc()', 'c.Inner().im()', 'c.Inner.z', 'c[int].__class__.__name__', "c['k']", 'o.made'):
         try:
             out.append((call, repr(eval(call, {'o': o, 'c': c}))))
         except AttributeError:
@@ -143,10 +148,10 @@ def program(bases, meta, kws, ndeco, members, placement):
         if placement == "redefined":
             body = old + cls + ["L(probe(Old))", "L(probe(K))"] + sub
             return PRE + "\n".join(body) + "\n"
-        body = ["def make():"] + ["    " + l for l in old + cls] + ["    return Old, K", "Old, K = make()", "L(probe(Old))", "L(probe(K))"] + sub
+        body = ["def make(encl2='encl2P'):", "    encl = 'enclF'"] + ["    " + l for l in old + cls] + ["    return Old, K", "Old, K = make()", "L(probe(Old))", "L(probe(K))"] + sub
         return PRE + "\n".join(body) + "\n"
     if placement == "function":
-        body = ["def make():"] + ["    " + l for l in cls] + ["    return K", "K = make()", "L(probe(K))"] + sub
+        body = ["def make(encl2='encl2P'):", "    encl = 'enclF'"] + ["    " + l for l in cls] + ["    return K", "K = make()", "L(probe(K))"] + sub
         return PRE + "\n".join(body) + "\n"
     if placement == "class":
         body = ["class Outer:"] + ["    " + l for l in cls] + ["K = Outer.K", "L(probe(K))"] + sub
@@ -199,7 +204,8 @@ def main(argv):
         ck.audit("OlVerif/Audit/C12.lean")
     kfs = {k["kf"]: k for k in load_known_findings("C12") if k.get("status") == "open"}
     member_sets = [[m] for m in MEMBERS] + [["attrs", "method", "static", "classmethod", "property"], ["init", "method", "super0"],
-                   ["nested-class", "body-if", "body-for"], ["init-subclass", "method"], ["super2", "init"], ["dunder-call", "attrs", "class-var-in-method-default"]]
+                   ["nested-class", "body-if", "body-for"], ["init-subclass", "method"], ["super2", "init"], ["dunder-call", "attrs", "class-var-in-method-default"],
+                   ["super0-enclosing", "dunder-class-enclosing", "method"]]
     for _ in range(10 if ck.tier == "quick" else 200):
         member_sets.append(ck.rng.sample(list(MEMBERS), ck.rng.randrange(2, 6)))
     specs = []
@@ -209,9 +215,9 @@ def main(argv):
                 for ndeco in (0, 1, 2):
                     for placement in ("module", "function", "class", "redefined", "redefined-in-function"):
                         for members in member_sets:
-                            if ("super0" in members or "super2" in members) and bases == "none":
+                            if ("super0" in members or "super2" in members or "super0-enclosing" in members) and bases == "none":
                                 continue
-                            if "super0" in members and "super2" in members:
+                            if sum(m in members for m in ("super0", "super2", "super0-enclosing")) > 1:
                                 continue
                             specs.append((bases, meta, kws, ndeco, tuple(members), placement))
     if ck.tier == "quick":
